@@ -550,9 +550,24 @@ def quantified_gen(self, g, env, is_all):
     if len(g.generators) != 1:
         raise E.Unsupported("nested generator in all/any")
     gen = g.generators[0]
-    S = self.iter_seq(gen.iter, env, getattr(g, "lineno", 0))
     j = ops.qvar("jq")
     sub = E.Env(dict(env.locals), env.heap, env.alloc, True, env.old, env.result, env.yielded, dict(env.binders))
+    it = gen.iter
+    if isinstance(it, ast.Call) and isinstance(it.func, ast.Name) and it.func.id == "range" and "range" not in env.locals \
+            and 1 <= len(it.args) <= 2 and not it.keywords and isinstance(gen.target, ast.Name):
+        # all/any over range(lo, hi): quantify over the integer itself (no materialised range sequence in the formula)
+        lo = self.ev(it.args[0], env).t if len(it.args) == 2 else z3.IntVal(0)
+        hi = self.ev(it.args[-1], env).t
+        self.bind_target(gen.target, V(j, INT), sub)
+        sub.purecalls = True
+        with E.PureGuard(self):
+            conds = [ops.truthy(self.ev(c, sub)) for c in gen.ifs]
+            body = ops.truthy(self.ev(g.elt, sub))
+        rng = z3.And(lo <= j, j < hi, *conds)
+        if is_all:
+            return V(z3.ForAll([j], z3.Implies(rng, body)), BOOL)
+        return V(z3.Exists([j], z3.And(rng, body)), BOOL)
+    S = self.iter_seq(gen.iter, env, getattr(g, "lineno", 0))
     self.bind_target(gen.target, V(seq_get(S.t, j), S.s.elem), sub)
     sub.purecalls = True
     with E.PureGuard(self):
